@@ -1797,13 +1797,13 @@ func H_C05_chunkIdentity(n int) {
 	// the re-attached mrp builds a new fork object for the same call
 	g := NewFork(node, 0, nil)
 	verifCover("chunks created on re-attach")
-	verifAssert(len(g.chunks) == n, "C05: a re-attached mrp finds exactly the chunks the split defined")
+	verifAssert(len(g.chunks) == n, "C05/C06: a re-attached mrp finds exactly the chunks the split defined")
 	if len(g.chunks) != len(f.chunks) {
 		return
 	}
 	for i := range f.chunks {
 		a, b := f.chunks[i].metadata, g.chunks[i].metadata
-		verifAssert(a.finalPath == b.finalPath, "C05: a re-attached mrp looks for each chunk in the directory the interrupted mrp created for it")
+		verifAssert(a.finalPath == b.finalPath, "C05/C06: a re-attached mrp looks for each chunk in the directory the interrupted mrp created for it (so that a restart re-executes only the work that failed)")
 		verifAssert(f.chunks[i].fqname == g.chunks[i].fqname && a.journalPath == b.journalPath, "C05/C11: a chunk keeps its name and journal name across a restart")
 	}
 }
